@@ -62,6 +62,8 @@ rt_eps!(rt_eps_tuple3_9, (u64, u64, u64), 0, 48, 9, 9);
 rt_eps!(rt_eps_tuple12_0, (u8, u8, u8, u8, u8, u8, u8, u8, u8, u8, u8, u8), 0, 32, 3, 0);
 // @h rt_eps_arr_u32_3_2 props=C02,C03,C07 tier=quick kind=complete vars="v:[u32;3], pos0=2" fns="impls/array.rs:DeserializeHelper<Zero>"
 rt_eps!(rt_eps_arr_u32_3_2, [u32; 3], 0, 32, 5, 2);
+// @h rt_eps_arr_z8_2_1 props=C02,C03,C07 tier=quick kind=complete vars="v:[Z8;2], pos0=1" fns="impls/array.rs:DeserializeHelper<Zero>"
+rt_eps!(rt_eps_arr_z8_2_1, [Z8; 2], 0, 48, 5, 1);
 // @h rt_eps_arr_opt_2_1 props=C02,C07 tier=quick kind=complete vars="v:[Option<u8>;2], pos0=1" fns="impls/array.rs:DeserializeHelper<Deep>"
 rt_eps!(rt_eps_arr_opt_2_1, [Option<u8>; 2], 0, 32, 4, 1);
 // @h rt_eps_arr_u16_0_1 props=C02,C03,C07 tier=quick kind=complete vars="v:[u16;0], pos0=1" fns="impls/array.rs:DeserializeHelper<Zero>"
@@ -101,3 +103,5 @@ rt_eps!(rt_eps_vec_z8_1, Vec<Z8>, 2, 48, 5, 1);
 rt_eps!(rt_eps_ed_3, ED, 0, 32, 3, 3);
 // @h rt_eps_vec_zp_1 props=C02,C03,C05,C07 tier=quick kind=bounded bound="len<=1" vars="v:Vec<ZP> (packed), pos0=1" fns="ser/helpers.rs:serialize_slice_zero,deser/helpers.rs:deserialize_eps_slice_zero,derive:ZP"
 rt_eps!(rt_eps_vec_zp_1, Vec<ZP>, 1, 48, 9, 1);
+// @h rt_eps_g2_arr_z8_1 props=C02,C03,C05,C07 tier=quick kind=complete vars="v:G2<[u8;3],Z8> (a zero-copy array whose size is not a multiple of the next block's unit), pos0=1" fns="impls/array.rs:DeserializeHelper<Zero>::_deserialize_eps_inner_impl,derive:G2"
+rt_eps!(rt_eps_g2_arr_z8_1, G2<[u8; 3], Z8>, 0, 48, 5, 1);
